@@ -9,9 +9,11 @@ import (
 	"go/types"
 	"os"
 	"path/filepath"
+	"runtime"
 	"runtime/debug"
 	"runtime/pprof"
 	"sort"
+	"strconv"
 	"strings"
 	"sync"
 	"time"
@@ -125,19 +127,19 @@ type CaseResult struct {
 }
 
 type EntryResult struct {
-	Entry         string            `json:"entry"`
-	Params        map[string]int    `json:"params"`
-	Cases         []*CaseResult     `json:"cases"`
-	Funcs         map[string]int    `json:"functions_encoded"`
-	Stubs         map[string]int    `json:"stubs"`
-	Intrinsics    map[string]int    `json:"intrinsics"`
-	SolverQueries int               `json:"solver_queries"`
-	SolverSeconds float64           `json:"solver_seconds"`
-	SolverUnknown int               `json:"solver_unknown"`
-	SolverErrors  []string          `json:"solver_errors,omitempty"`
-	Seconds       float64           `json:"seconds"`
-	CasesCapped   bool              `json:"cases_capped,omitempty"`
-	Error         string            `json:"error,omitempty"`
+	Entry         string         `json:"entry"`
+	Params        map[string]int `json:"params"`
+	Cases         []*CaseResult  `json:"cases"`
+	Funcs         map[string]int `json:"functions_encoded"`
+	Stubs         map[string]int `json:"stubs"`
+	Intrinsics    map[string]int `json:"intrinsics"`
+	SolverQueries int            `json:"solver_queries"`
+	SolverSeconds float64        `json:"solver_seconds"`
+	SolverUnknown int            `json:"solver_unknown"`
+	SolverErrors  []string       `json:"solver_errors,omitempty"`
+	Seconds       float64        `json:"seconds"`
+	CasesCapped   bool           `json:"cases_capped,omitempty"`
+	Error         string         `json:"error,omitempty"`
 }
 
 type RunResult struct {
@@ -164,7 +166,29 @@ func main() {
 	cpuprof := flag.String("cpuprofile", "", "write a CPU profile")
 	flag.Parse()
 	debug.SetGCPercent(100)
-	debug.SetMemoryLimit(9 << 30) // the sandbox kills the process beyond ~13 GB; make the collector work harder instead
+	debug.SetMemoryLimit(9 << 30) // soft limit: make the collector work harder beyond 9 GB
+	go func() {
+		// hard budget: stop as inconclusive rather than let the kernel's OOM killer pick a victim
+		limit := uint64(24)
+		if v, err := strconv.Atoi(os.Getenv("VERIF_HEAP_GB")); err == nil && v > 0 {
+			limit = uint64(v)
+		}
+		var ms runtime.MemStats
+		for {
+			time.Sleep(2 * time.Second)
+			runtime.ReadMemStats(&ms)
+			if ms.HeapAlloc > limit<<30 {
+				if hp := os.Getenv("VERIF_HEAPPROF"); hp != "" {
+					if f, err := os.Create(hp); err == nil {
+						pprof.WriteHeapProfile(f)
+						f.Close()
+					}
+				}
+				fmt.Fprintf(os.Stderr, "INCONCLUSIVE engine memory budget exceeded: heap %d MB > %d GB (reduce the bounds)\n", ms.HeapAlloc>>20, limit)
+				os.Exit(3)
+			}
+		}
+	}()
 	if *cpuprof != "" {
 		f, _ := os.Create(*cpuprof)
 		delay, _ := time.ParseDuration(os.Getenv("VERIF_PROF_DELAY"))
@@ -330,6 +354,15 @@ func newCtx(prog *ssa.Program, cfg *Config, funcByName map[string]*ssa.Function,
 
 func (c *Ctx) resetCase() {
 	c.tt = newTerms()
+	if c.solver.dead {
+		// the solver process of the previous case died (memory cap): start a fresh one, keep the counters
+		old := c.solver
+		old.Close()
+		if ns, err := newSolver(old.name, old.timeoutS); err == nil {
+			ns.Queries, ns.CacheHit, ns.Seconds, ns.Unknowns, ns.Errors, ns.log = old.Queries, old.CacheHit, old.Seconds, old.Unknowns, old.Errors, old.log
+			c.solver = ns
+		}
+	}
 	c.solver.defined = map[int]bool{}
 	c.solver.cache = map[string]int{}
 	c.solver.send("(reset)\n")
